@@ -7,6 +7,7 @@ import (
 
 	"github.com/bluenviron/gomavlib/v3/pkg/dialect"
 	"github.com/bluenviron/gomavlib/v3/pkg/frame"
+	"github.com/bluenviron/gomavlib/v3/pkg/message"
 
 	"verif/dsim"
 	"verif/hd"
@@ -55,6 +56,24 @@ func readAllCut(prop string, data []byte, mode, cutAt int, errAt int, terr error
 		n = len(data)
 	}
 	pos := 0
+	// a delivered frame belongs to the caller: what it says at the instant it is returned is what
+	// it still says after the reader has gone on (queued events, delayed forwarding)
+	var snaps []string
+	stable := func() bool {
+		k := 0
+		for _, r := range res {
+			if r.kind != 0 {
+				continue
+			}
+			if now := frameSnapshot(r.fr); now != snaps[k] {
+				dsim.Failf("delivered-stable", "%s: the frame delivered for [%d,%d) changed while the reader read on (chunk mode %d): at delivery %s, at the end of the stream %s",
+					prop, r.from, r.to, mode, snaps[k], now)
+				return false
+			}
+			k++
+		}
+		return true
+	}
 	for calls := 0; ; calls++ {
 		if calls > n+1 {
 			dsim.Failf("reader-progress", "%s: more than n+1=%d calls on a stream of %d bytes (chunk mode %d): %s",
@@ -99,11 +118,24 @@ func readAllCut(prop string, data []byte, mode, cutAt int, errAt int, terr error
 			return res, false
 		}
 		res = append(res, r)
+		if r.kind == 0 {
+			snaps = append(snaps, frameSnapshot(fr))
+		}
 		if r.kind == 2 {
-			return res, true
+			return res, stable()
 		}
 		pos = npos
 	}
+}
+
+// frameSnapshot renders everything a frame object carries (header, checksum, signature block and,
+// for an undecoded message, its payload bytes).
+func frameSnapshot(fr frame.Frame) string {
+	h := headerRef(fr)
+	if raw, ok := fr.GetMessage().(*message.MessageRaw); ok {
+		return fmt.Sprintf("%s raw=%x", h, raw.Payload)
+	}
+	return fmt.Sprintf("%s msg=%+v", h, fr.GetMessage())
 }
 
 func describe(r rdResult) string {
